@@ -106,7 +106,7 @@ REGISTRY = {
     },
     "C16": {
         "level": "proof",
-        "modules": ["SkaModel.Props.C16", "SkaModel.Props.C16Bits", "SkaModel.Props.C16Roll"],
+        "modules": ["SkaModel.Props.C16", "SkaModel.Props.C16Bits", "SkaModel.Props.C16Roll", "SkaModel.Props.C16Hash"],
         "gen": ["C16"],
         "rule": "generated per (k, width): all split k-mers for small k, structured + random integers, random sequences with N; non-trivial = distinct case lines whose result is a value (not none/panic)",
         "trusted_base": COMMON_TRUST,
@@ -116,6 +116,11 @@ REGISTRY = {
         "level": "proof", "modules": ["SkaModel.Props.C02"], "gen": ["C02"], "cli": [cli.c02_cli],
         "rule": "record sets of C01 x transformations (record permutation, random case mask, per-record reverse complement when strands are merged, all together); in-process metamorphic comparison + CLI runs on re-wrapped/gzip-compressed/permuted files; non-trivial = distinct case lines yielding at least one k-mer",
         "trusted_base": COMMON_TRUST, "assumptions": [EXTERNAL, "gzip decompression and FASTA line joining (needletail) are exercised through the CLI only"],
+    },
+    "C03": {
+        "level": "proof", "modules": ["SkaModel.Props.C03"], "gen": ["C03"], "cli": [cli.c03_cli],
+        "rule": "in-process: sample families (1-3 contigs, isolated and non-isolated substitutions, contigs permuted / reverse-complemented per sample) through build_and_merge + align vs model and vs the joint-build table specification; CLI: repeat-free ancestors (predicate checked, resampled otherwise), isolated SNP sites at the exact boundary distances (h+1 apart, h from the ends), 2-10 samples, expected = exactly the planted columns; non-trivial = families with at least one variable site",
+        "trusted_base": COMMON_TRUST, "assumptions": [EXTERNAL, "RepeatFree is the executable predicate: every canonical arm key occurs at one ancestor coordinate only over all samples and is not its own reverse complement"],
     },
     "C04": {
         "level": "proof", "modules": ["SkaModel.Props.C04", "SkaModel.Props.C04Writer", "SkaModel.Props.C04Map", "SkaModel.Props.C04Final"], "gen": ["C04"],
@@ -163,7 +168,7 @@ REGISTRY = {
         "trusted_base": COMMON_TRUST, "assumptions": [EXTERNAL, "exactness is stated under the no-collision hypothesis (ntHash injective on the observed k-mers, no Bloom false positive among them); the collision rate is measured, not proved"],
     },
     "C20": {
-        "level": "proof", "modules": ["SkaModel.Props.C20"], "gen": [], "cli": [cli.c20_cli],
+        "level": "proof", "modules": ["SkaModel.Props.C20", "SkaModel.Props.C20Real"], "gen": [], "cli": [cli.c20_cli],
         "rule": "parameter points (0<w0<1, c>=1, random and two-peak histograms of 1-120 rows) for likelihood/gradient (code vs model Float instance, and code gradient vs central finite differences of the code's likelihood); cutoff points over table lengths 0..200; generated read pairs (coverage 10-80, error 0-3%, N, both strand modes, k 15..33) through CoverageHistogram and `ska cov`; non-trivial = points compared away from rounding ties / pairs whose fit converged",
         "trusted_base": COMMON_TRUST + ["hooked private functions (feature verif-hooks): log_likelihood, grad_ll, find_cutoff, fitted state, k-mer multiplicities"],
         "assumptions": [EXTERNAL, "IEEE-754 evaluation of every f64 expression, libm::lgamma and the argmin BFGS fit are outside the model: formulas are compared numerically with tolerance, the fitted (w0, c) are taken from the code"],
